@@ -41,6 +41,12 @@ def main(argv):
     except props.ControlFailure as e:
         print("ERROR: checker self-control failed (machinery broken, no verdict): %s" % e)
         return 2
+    except Exception as e:
+        import thorough
+        if isinstance(e, thorough.ThoroughFailure):
+            print("ERROR: thorough-tier checker self-test failed (machinery broken, no verdict): %s" % e)
+            return 2
+        raise
     rep.configs = sorted(ctx.loaded)
     rep.stats = ctx.stats()
     lines, nviol, ev = rep.finish(spec["explanation"], spec["assumptions"], spec["rule"])
